@@ -27,7 +27,7 @@ import zlib
 from xml.parsers import expat
 
 from vmon import corpus, hooks, probes
-from vmon.case import LibRaised, exc_mech
+from vmon.case import exc_mech
 from vmon.oracle import c01_sfntdir as sd
 from vmon.oracle import c03_strings as cs
 
@@ -46,7 +46,7 @@ ASSUMPTIONS = [
 ]
 REQUIRED_MONITORS = ["TTFont.saveXML", "TTFont._tableToXML", "TTFont.importXML", "XMLReader._startElementHandler",
                      "xmlWriter.escape", "xmlWriter.escapeattr"]
-CASE_TIMEOUT = 300
+CASE_TIMEOUT = 900
 MANIFEST = {
     "text": "Exploration over the whole vendored corpus (438 fonts: binaries, TTC members, compiled TTX) plus fonts with hostile strings injected into glyph names, name records, meta and SVG payloads and a generated EBDT/EBLC bitmap font: each is dumped to TTX under whole / splitTables / splitGlyphs, with and without instruction disassembly, LF / CRLF / CR newlines, every bitmap data format, tables= and skipTables= selections, through the API and the in-process ttx CLI; the dump is imported and saved and its table bytes are compared with those of the saved original object model. The suite pins XML text of about twenty fonts, not the binary the XML must reproduce.",
     "note": "Trusted base: vmon/oracle/c01_sfntdir.py (struct-level sfnt parser), vmon/oracle/c03_strings.py (struct-level name / CFF string comparison for the stated white-space normalisation), expat for the escape post-condition. Both sides go through the same compiler, so only dump+import can make them differ.",
@@ -263,7 +263,9 @@ def cases(tier, seed):
         if not T:
             opts = [_opt(), _random_opt(rnd, rec)]
             if bitmap:
-                opts += [_opt(bitmap="extfile"), _opt(bitmap="row", split="tables", nl="CRLF")]
+                opts += [_opt(bitmap="extfile"), _opt(bitmap="row", split="tables", nl="CRLF"), _opt(bitmap="bitwise")]
+            if any(t.startswith("TSI") for t in rec["tables"]):
+                opts += [_opt(nl="CR"), _opt(nl="CRLF", split="tables")]     # source-text tables: newline conventions
             if _h(rec["path"]) % 16 == seed % 16:
                 opts.append(_opt(via="cli", split=rnd.choice(["whole", "tables"]), nl=rnd.choice(list(NEWLINES))))
             out.append(dict(base, id="font:" + _fid(rec), opts=opts))
@@ -291,8 +293,9 @@ def cases(tier, seed):
                     seen.add(_opt_id(o))
                     uniq.append(o)
             # split big option lists into several cases to keep cases short
-            for k in range(0, len(uniq), 8):
-                out.append(dict(base, id="font:%s:%d" % (_fid(rec), k // 8), opts=uniq[k:k + 8]))
+            step = 4 if rec["size"] > 50000 else 8
+            for k in range(0, len(uniq), step):
+                out.append(dict(base, id="font:%s:%d" % (_fid(rec), k // step), opts=uniq[k:k + step]))
     # hostile strings
     rnd = random.Random("c03-hostile/%s/%s" % (tier, seed))
     pool = [r for r in recs if r["complete"] and r["member"] is None and r["flavor"] is None and r["numGlyphs"] >= 3]
